@@ -37,6 +37,9 @@ Effect(c) ==
     [] c.op = "CreateEmptyArray"   -> Create(IF c.n = NoDim THEN [i \in 1..c.d |-> Zero] ELSE Vals(c.n), c.d, NoDim, "")
     [] c.op = "CreateCopy"  -> LET a == pool[c.i] IN Create(IF c.n = NoDim THEN a.vs ELSE Vals(c.n), a.dim, NoDim, a.u)
     [] c.op = "CopyToUnit"  -> LET a == pool[c.i] IN Create([k \in 1..Len(a.vs) |-> Conv(a.u, c.u, a.vs[k])], a.dim, NoDim, c.u)
+    \* CreateCopy(values=.., unit=u [, category=..]): the three branches of CreateCopy that build a new quantity (category given; unit given and
+    \* the source has a category; unit given and the source has the empty quantity) all forward the source's dimension
+    [] c.op = "CopyValuesTo" -> LET a == pool[c.i] IN Create(Vals(c.n), a.dim, NoDim, c.u)
     [] c.op = "Pickle"      -> OkA(pool[c.i])
     [] c.op = "Scale"       -> LET a == pool[c.i] IN OkA(FA(Len(a.vs), [k \in 1..Len(a.vs) |-> RMul(a.vs[k], R(2))], a.u))   \* a * 2
     [] c.op = "AddArrays"   -> LET a == pool[c.i]  b == pool[c.j] IN
@@ -53,7 +56,7 @@ Effect(c) ==
          IF c.idx >= Len(a.vs) THEN Fail("INDEX") ELSE OkX(Conv(a.u, c.u, a.vs[c.idx + 1]))
     [] c.op \in {"SetImage", "SetDomain"} -> IF c.n = (IF c.op = "SetImage" THEN curve.dom ELSE curve.img) THEN OkX(Zero) ELSE Fail("VALUE")
 
-Appends(op) == op \in {"Ctor", "CtorDefault", "CreateWithQuantity", "CreateEmptyArray", "CreateCopy", "CopyToUnit", "Pickle", "Scale", "AddArrays", "ChangingIndex"}
+Appends(op) == op \in {"Ctor", "CtorDefault", "CreateWithQuantity", "CreateEmptyArray", "CreateCopy", "CopyToUnit", "CopyValuesTo", "Pickle", "Scale", "AddArrays", "ChangingIndex"}
 Step(c) ==
   /\ Len(hist) < MaxCalls
   /\ \E r \in {Effect(c)} :
@@ -75,6 +78,7 @@ CreateEmptyArray == \E d \in Dims, n \in Lens \cup {NoDim} : Step([C("CreateEmpt
 I == 1..Len(pool)
 CreateCopy == \E i \in I, n \in Lens \cup {NoDim} : Step([C("CreateCopy") EXCEPT !.i = i, !.n = n])
 CopyToUnit == \E i \in I, u \in Us : pool[i].u # "" /\ Step([C("CopyToUnit") EXCEPT !.i = i, !.u = u])
+CopyValuesTo == \E i \in I, n \in Lens, u \in Us, f \in {"unit", "unitcat"} : Step([C("CopyValuesTo") EXCEPT !.i = i, !.n = n, !.u = u, !.form = f])
 Pickle == \E i \in I : Step([C("Pickle") EXCEPT !.i = i])
 Scale == \E i \in I : Step([C("Scale") EXCEPT !.i = i])
 AddArrays == \E i \in I, j \in I : pool[i].u # "" /\ pool[j].u # "" /\ Step([C("AddArrays") EXCEPT !.i = i, !.j = j])
@@ -85,7 +89,7 @@ SetImage == \E n \in Lens : Step([C("SetImage") EXCEPT !.n = n])
 SetDomain == \E n \in Lens : Step([C("SetDomain") EXCEPT !.n = n])
 Init == /\ TLCSet(2, 1 + (EmitOffset % 65520)) /\ pool = <<>> /\ hist = <<>>
         /\ \E k \in Lens : curve = [img |-> k, dom |-> k]               \* Curve(image, domain) of equal lengths
-Next == Ctor \/ CtorDefault \/ CreateWithQuantity \/ CreateEmptyArray \/ CreateCopy \/ CopyToUnit \/ Pickle \/ Scale \/ AddArrays
+Next == Ctor \/ CtorDefault \/ CreateWithQuantity \/ CreateEmptyArray \/ CreateCopy \/ CopyToUnit \/ CopyValuesTo \/ Pickle \/ Scale \/ AddArrays
         \/ ChangingIndex \/ IndexAsScalar \/ SetImage \/ SetDomain
 Spec == Init /\ [][Next]_vars
 Bounded == Len(pool) <= 3
